@@ -49,6 +49,11 @@ pub(crate) struct ForkScenario<'a> {
     /// block bodies travel slower than everything else: a body that was requested on the old
     /// branch arrives after the proof of the new one
     pub slow_blocks: bool,
+    /// after the full sync the peer first grows on the old branch, one announced block at a time
+    /// (each a child of the proven tip: the client follows without a proof), up to the old tip;
+    /// only then it switches
+    pub steps: u64,
+    pub stepped: Cell<u64>,
 }
 
 fn trusted_store(sim: &Sim) -> String {
@@ -86,7 +91,8 @@ impl<'a> ForkScenario<'a> {
 impl<'a> Scenario for ForkScenario<'a> {
     fn init(&self, old: Option<Sim>) -> Sim {
         let mut world = World::new(vec![self.old.clone(), self.new.clone()], self.cfg.cp_interval);
-        world.add_peer(1, 0, self.old.tip_number());
+        world.add_peer(1, 0, self.old.tip_number() - self.steps);
+        self.stepped.set(0);
         world.filter_batch = self.filter_batch;
         world.slow_blocks = self.slow_blocks;
         world.very_slow_blocks = self.slow_blocks;
@@ -153,6 +159,12 @@ impl<'a> Scenario for ForkScenario<'a> {
         if self.switched.get() {
             return false;
         }
+        if self.stepped.get() < self.steps {
+            self.stepped.set(self.stepped.get() + 1);
+            let h = self.old.tip_number() - self.steps + self.stepped.get();
+            sim.set_view(1, 0, h, true);
+            return true;
+        }
         self.switch(sim);
         true
     }
@@ -161,6 +173,7 @@ impl<'a> Scenario for ForkScenario<'a> {
             // the chain reorganised while the client was down: the peer comes back on the new
             // branch (restart_all connects it with this view)
             self.switched.set(true);
+            self.stepped.set(self.steps);
             let p = sim.world.peer_mut(1);
             p.chain = 1;
             p.height = self.new_tip;
@@ -178,10 +191,12 @@ pub(crate) struct Item {
     /// the new branch commits the transactions of the abandoned blocks again (one block later than
     /// the old branch did, as a reorganising node's pool would), and spends their outputs later
     recommit: bool,
+    /// blocks the old branch grows by single announcements between the full sync and the switch
+    steps: u64,
 }
 
 fn chains(env: &Env, item: &Item) -> (Chain, Chain, u64) {
-    let l = 14u64;
+    let l = 14u64 + item.steps;
     let fork_at = l - item.depth;
     // old chain: activity around the fork region incl. spends of trunk cells in abandoned blocks
     let mut acts = vec![
@@ -254,21 +269,28 @@ pub(crate) fn run(opts: &Opts, report: &mut Report) {
             // probability; last-N+6 exercises the sampled path with a lower one)
             for growth in if thorough { (1..=(last_n + 2)).chain([last_n + 6]).collect::<Vec<_>>() } else { vec![1, last_n, last_n + 2, last_n + 6] } {
                 for set in if thorough { vec![0usize, 1, 2, 3] } else { vec![1usize, 3] } {
-                    items.push(Item { last_n, depth, growth, set, rewind: 0, slow: false, recommit: false });
+                    items.push(Item { last_n, depth, growth, set, rewind: 0, slow: false, recommit: false, steps: 0 });
+                    // the old branch grows block by block (child announcements, no proof) before
+                    // the switch: the remembered last-N headers come from the child shortcut
+                    if depth <= last_n && (thorough || set == 1) && (thorough || growth == 1 || growth == last_n + 2) {
+                        for steps in 1..=(last_n + 2) {
+                            items.push(Item { last_n, depth, growth, set, rewind: 0, slow: false, recommit: false, steps });
+                        }
+                    }
                     // the new branch commits the abandoned transactions again (shallow forks)
                     if depth <= last_n && growth >= 2 && (thorough || set == 1) {
-                        items.push(Item { last_n, depth, growth, set, rewind: 0, slow: false, recommit: true });
+                        items.push(Item { last_n, depth, growth, set, rewind: 0, slow: false, recommit: true, steps: 0 });
                     }
                     // the same with a set_scripts that rewinds filter syncing right before the
                     // switch after the full sync (shallow forks, one script set; thorough: all)
                     // slow block bodies (shallow forks): bodies requested on the old branch arrive
                     // after the proof of the new one
                     if depth <= last_n && (thorough || set == 1) {
-                        items.push(Item { last_n, depth, growth, set, rewind: 0, slow: true, recommit: false });
+                        items.push(Item { last_n, depth, growth, set, rewind: 0, slow: true, recommit: false, steps: 0 });
                     }
                     if depth <= last_n && (thorough || set == 1) {
-                        items.push(Item { last_n, depth, growth, set, rewind: 1, slow: false, recommit: false });
-                        items.push(Item { last_n, depth, growth, set, rewind: 2, slow: false, recommit: false });
+                        items.push(Item { last_n, depth, growth, set, rewind: 1, slow: false, recommit: false, steps: 0 });
+                        items.push(Item { last_n, depth, growth, set, rewind: 2, slow: false, recommit: false, steps: 0 });
                     }
                 }
             }
@@ -286,7 +308,7 @@ pub(crate) fn run(opts: &Opts, report: &mut Report) {
             2 => vec![Reg { script: s.b.clone(), is_lock: true, start: 0 }, Reg { script: s.a.clone(), is_lock: true, start: 6 }],
             _ => vec![Reg { script: s.t.clone(), is_lock: false, start: 0 }, Reg { script: s.b.clone(), is_lock: true, start: 0 }],
         };
-        let name = format!("lastN{}/depth{}/growth{}/set{}{}", item.last_n, item.depth, item.growth, item.set, format!("{}{}", ["", "/rewind", "/registered-again"][item.rewind as usize], if item.slow { "/slow-blocks" } else if item.recommit { "/recommit" } else { "" }));
+        let name = format!("lastN{}/depth{}/growth{}/set{}{}", item.last_n, item.depth, item.growth, item.set, format!("{}{}", ["", "/rewind", "/registered-again"][item.rewind as usize], if item.slow { "/slow-blocks".to_owned() } else if item.recommit { "/recommit".to_owned() } else if item.steps > 0 { format!("/steps{}", item.steps) } else { String::new() }));
         let sc = ForkScenario {
             env: &env,
             name: name.clone(),
@@ -297,9 +319,11 @@ pub(crate) fn run(opts: &Opts, report: &mut Report) {
             new_tip,
             switched: Cell::new(false),
             before_switch: RefCell::new(None),
-            explore_switch_moment: true, switch_while_down: false, filter_batch: 6,
+            explore_switch_moment: item.steps == 0, switch_while_down: false, filter_batch: 6,
             rewind_before_switch: item.rewind,
             slow_blocks: item.slow,
+            steps: item.steps,
+            stepped: Cell::new(0),
         };
         let long_fork = item.depth > item.last_n;
         let mut skipped_banned = 0u64;
@@ -431,13 +455,13 @@ pub(crate) fn run(opts: &Opts, report: &mut Report) {
 
 pub(crate) fn debug_case() {
     let env = Env::dummy();
-    let item = Item { last_n: 2, depth: 1, growth: 4, set: 0, rewind: 0, slow: false, recommit: false };
+    let item = Item { last_n: 2, depth: 1, growth: 4, set: 0, rewind: 0, slow: false, recommit: false, steps: 0 };
     let (old, new, new_tip) = chains(&env, &item);
     let s = &env.scripts;
     let regs = vec![Reg { script: s.a.clone(), is_lock: true, start: 0 }];
     let sc = ForkScenario {
         env: &env, name: "dbg".into(), old, new, regs, cfg: ClientCfg { last_n: 2, cp_interval: 4, ..Default::default() },
-        new_tip, switched: Cell::new(false), before_switch: RefCell::new(None), explore_switch_moment: true, switch_while_down: false, filter_batch: 6, rewind_before_switch: 0, slow_blocks: false,
+        new_tip, switched: Cell::new(false), before_switch: RefCell::new(None), explore_switch_moment: true, switch_while_down: false, filter_batch: 6, rewind_before_switch: 0, slow_blocks: false, steps: 0, stepped: Cell::new(0),
     };
     let mut sim = sc.init(None);
     sim.record_trace = true;
@@ -459,7 +483,7 @@ pub(crate) fn debug_case() {
 
 /// The fork scenario for other checks (C08): full sync of the old branch, then the switch.
 pub(crate) fn scenario<'a>(env: &'a Env, last_n: u64, depth: u64, growth: u64, set: usize) -> (ForkScenario<'a>, Vec<Reg>) {
-    let item = Item { last_n, depth, growth, set, rewind: 0, slow: false, recommit: std::env::var("C04_RECOMMIT").is_ok() };
+    let item = Item { last_n, depth, growth, set, rewind: 0, slow: false, recommit: std::env::var("C04_RECOMMIT").is_ok(), steps: 0 };
     let (old, new, new_tip) = chains(env, &item);
     let s = &env.scripts;
     let regs: Vec<Reg> = match set {
@@ -479,7 +503,7 @@ pub(crate) fn scenario<'a>(env: &'a Env, last_n: u64, depth: u64, growth: u64, s
             switched: Cell::new(false),
             before_switch: RefCell::new(None),
             explore_switch_moment: false,
-            switch_while_down: false, filter_batch: 6, rewind_before_switch: 0, slow_blocks: false,
+            switch_while_down: false, filter_batch: 6, rewind_before_switch: 0, slow_blocks: false, steps: 0, stepped: Cell::new(0),
         },
         regs,
     )
